@@ -23,7 +23,7 @@ structure Script where
   close : Bool
 
 inductive Op where
-  | req (auth : Nat) (o : ReqOpts) (mode : Mode) (s : Script)
+  | req (auth : Nat) (o : ReqOpts) (expect : Bool) (mode : Mode) (s : Script)
   | par (auths : List Nat)
   | bad
 
@@ -58,7 +58,8 @@ def lastConn (p : Pool) : Option Conn :=
   | some l => l.conn
   | none => none
 
-def stepReq (cfg : Cfg) (w : World) (auth : Nat) (o : ReqOpts) (mode : Mode) (s : Script) : World :=
+def stepReq (cfg : Cfg) (w : World) (auth : Nat) (o : ReqOpts) (expect : Bool) (mode : Mode) (s : Script) :
+    World :=
   let now := w.now + 1
   let nextBefore := w.pool.nextId
   let w := ({ w with now := now }).apply cfg [.acquire auth now]
@@ -68,7 +69,7 @@ def stepReq (cfg : Cfg) (w : World) (auth : Nat) (o : ReqOpts) (mode : Mode) (s 
   let cid := match lastConn w.pool with
     | some c => c.id
     | none => 0
-  let ex := exchange o mode (s.pre ++ s.post) s.close
+  let ex := exchangeX o expect mode (s.pre ++ s.post) s.close
   let after : List Ev :=
     if ex.released then
       -- io back in the pool; whatever the server still wrote (and its FIN) lands in the socket
@@ -106,7 +107,7 @@ def stepPar (cfg : Cfg) (w : World) (auths : List Nat) : World :=
 
 def stepOp (cfg : Cfg) (w : World) : Op → World
   | .bad => { w with obs := w.obs ++ [.bad] }
-  | .req a o m s => stepReq cfg w a o m s
+  | .req a o e m s => stepReq cfg w a o e m s
   | .par auths => stepPar cfg w auths
 
 def runOps (cfg : Cfg) (ops : List Op) : World := ops.foldl (stepOp cfg) {}
